@@ -55,8 +55,9 @@ static int check_multipolygon() {
 
 static int check_double2string(std::mt19937_64& rng) {
     for (int i = 0; i < 200000; ++i) {
+        if (rng() % 50 == 0) { std::string t; osmium::double2string(t, 1e300 * double(rng() % 1000), int(rng() % 18)); }
         double v = (rng() % 3 == 0) ? double(int64_t(rng() % 40000000) - 20000000) : (double(int64_t(rng() % 4000000000ULL) - 2000000000LL) / 1e7) * ((rng() % 4 == 0) ? 111319.49 : 1.0);
-        int prec = (rng() % 5 == 0) ? int(rng() % 8) : 7; if (prec == 0) continue;   // precision 0 is outside what the exporters use (default 7)
+        int prec = (rng() % 5 == 0) ? int(rng() % 18) : 7;
         std::string s; osmium::double2string(s, v, prec);
         char ref[64]; std::snprintf(ref, sizeof ref, "%.*f", prec, v); std::string r(ref); if (r.find('.') != std::string::npos) { while (r.back() == '0') r.pop_back(); if (r.back() == '.') r.pop_back(); }
         if (s != r) { std::printf("double2string(%.17g, precision %d) = \"%s\", exact to the requested precision is \"%s\"\nARGV: search\n", v, prec, s.c_str(), r.c_str()); return 1; }
